@@ -12,7 +12,29 @@
    size_type, i*bl and j*bl are below 2^63 and the target address is a 64-bit
    address.  [fits chk S B g]: when size checks are enabled the view covers the
    header and all announced entries (otherwise an assertion is the documented
-   outcome).  [GOk] excludes both assertion failure and undefined behaviour. *)
+   outcome).  [GOk] excludes both assertion failure and undefined behaviour.
+
+   Header size.  The dimension composite of a group may hold more than
+   blockLength and numInGroup (SBE 2.0 numGroups / numVarDataFields, `offset=`
+   padding, either member order); the data start is the group address plus
+   sbepp::size_bytes(dimension).  Every statement below holds for an ARBITRARY
+   header size H:
+   - for a group on decoded header values H is the field [g_hdr g], constrained
+     by [wf_grp] only to  wsize B + wsize S <= g_hdr g < 2^63  (room for the two
+     members; below 2^63 so that H + numInGroup * blockLength, with the product
+     below 2^63, does not wrap std::size_t).  Where blockLength and numInGroup
+     lie inside the header is irrelevant to the iterator algebra;
+   - the five laws of the iterator alone (subscript, the two cancellations,
+     distance, order) are stated for an iterator family [it_at base ..] over
+     EVERY first-entry address [base]; for a group that is g_ptr g + g_hdr g
+     ([C12_begin_plus_size], [C12_entry_i_address]);
+   - at the byte level the layout is [L : hlay] = (size [h_size L], offset of
+     blockLength [h_bl L], offset of numInGroup [h_ng L]) with [wf_hlay S B L]:
+     both members inside the composite and not overlapping, in any order (which
+     implies wsize B + wsize S <= h_size L, [C12_layout_size]); the header lies
+     in a buffer shorter than 2^63 bytes, hence no separate bound on H.
+   The two-member composite ([hdr_size S B], [std_hlay S B], [enc_dim]) is the
+   special case ([C12_two_member_header_is_an_instance]). *)
 From Coq Require Import ZArith List.
 From Sbepp Require Import CInt GroupIter GroupIterProofs.
 Import ListNotations.
@@ -20,21 +42,22 @@ Import GI.
 Local Open Scope Z_scope.
 
 (* begin() + size() == end(): the very same iterator state (position and index), and
-   end() - begin() == size() *)
+   end() - begin() == size(); for every header size g_hdr g (see [wf_grp]) *)
 Theorem C12_begin_plus_size : forall chk S B g,
   wf_grp S B g -> fits chk S B g ->
   g_ng g * g_bl g < 2 ^ 63 ->
-  tmin I64 <= g_ptr g + hdr_size S B + g_ng g * g_bl g <= tmax I64 ->
+  tmin I64 <= g_ptr g + g_hdr g + g_ng g * g_bl g <= tmax I64 ->
   in_range (dty S) (g_ng g) = true ->
   exists b e,
     g_begin chk S B g = GOk b /\ g_end_it chk S B g = GOk e /\
     it_plus S B b (g_ng g) = GOk e /\
-    i_ptr e = g_ptr g + hdr_size S B + g_ng g * g_bl g /\ i_idx e = g_ng g /\
+    i_ptr e = g_ptr g + g_hdr g + g_ng g * g_bl g /\ i_idx e = g_ng g /\
     it_diff S e b = GOk (g_ng g).
 Proof. exact begin_plus_size. Qed.
 Print Assumptions C12_begin_plus_size.
 
-(* it[n] is *(it + n), the entry i + n *)
+(* it[n] is *(it + n), the entry i + n; [base] is any first-entry address, i.e.
+   group address + header size for any header size (likewise below) *)
 Theorem C12_subscript_is_plus : forall S B base bl e i n,
   is_uns S = true -> is_uns B = true -> in_range B bl = true ->
   in_range (dty S) n = true -> step_ok S base bl i (i + n) ->
@@ -84,12 +107,14 @@ Proof. exact order_is_index_order. Qed.
 Print Assumptions C12_order_is_index_order.
 
 (* entry i (operator[], front, back, iteration) starts at
-   data start + i * wire blockLength, zero-length blocks included *)
+   data start + i * wire blockLength, zero-length blocks included; the data
+   start is group address + size of the dimension composite, whatever that
+   size is *)
 Theorem C12_entry_i_address : forall chk S B g,
   wf_grp S B g -> fits chk S B g ->
   g_ng g * g_bl g < 2 ^ 63 ->
-  tmin I64 <= g_ptr g + hdr_size S B + g_ng g * g_bl g <= tmax I64 ->
-  let data := g_ptr g + hdr_size S B in
+  tmin I64 <= g_ptr g + g_hdr g + g_ng g * g_bl g <= tmax I64 ->
+  let data := g_ptr g + g_hdr g in
   (forall pos, 0 <= pos < g_ng g -> g_at chk S B g pos = GOk (data + pos * g_bl g)) /\
   (0 < g_ng g -> g_front chk S B g = GOk data /\
                  g_back chk S B g = GOk (data + (g_ng g - 1) * g_bl g)) /\
@@ -99,36 +124,59 @@ Theorem C12_entry_i_address : forall chk S B g,
 Proof. exact entry_i_address. Qed.
 Print Assumptions C12_entry_i_address.
 
-(* with checks enabled operator[] reports a position outside the group *)
+(* with checks enabled operator[] reports a position outside the group
+   ([g] carries any header size) *)
 Theorem C12_subscript_out_of_range_asserts : forall S B g pos,
   ~ (ccast S pos < g_ng g) -> g_at true S B g pos = GAssert.
 Proof. exact g_at_assert. Qed.
 Print Assumptions C12_subscript_out_of_range_asserts.
 
-(* nested groups: forward iteration visits entry i where entry i-1 ends *)
-Theorem C12_nested_forward_chain : forall chk S B bl es pre post e,
-  let buf := pre ++ enc_nested S B bl es ++ post in
+(* nested groups: forward iteration visits entry i where entry i-1 ends, the
+   first one right after the dimension composite: [hdr] is ANY [h_size L] bytes
+   from which blockLength / numInGroup are read back at the layout's offsets *)
+Theorem C12_nested_forward_chain : forall chk S B L hdr bl es pre post e,
+  let buf := pre ++ enc_nested hdr es ++ post in
   let p := blen pre in
-  is_uns S = true -> is_uns B = true -> in_range B bl = true ->
-  in_range S (Z.of_nat (length es)) = true ->
+  is_uns S = true -> is_uns B = true ->
+  blen hdr = h_size L ->
+  rd B hdr (h_bl L) = Some bl -> rd S hdr (h_ng L) = Some (Z.of_nat (length es)) ->
+  in_range B bl = true -> in_range S (Z.of_nat (length es)) = true ->
   Forall (wf_nentry bl) es -> blen buf < 2 ^ 63 ->
-  (chk = true -> p + blen (enc_nested S B bl es) <= e /\ e < 2 ^ 63) ->
-  n_entries chk S B buf p e = GOk (starts_from (p + hdr_size S B) es) /\
-  n_end_idx chk S B buf p e = GOk (Z.of_nat (length es)).
+  (chk = true -> p + blen (enc_nested hdr es) <= e /\ e < 2 ^ 63) ->
+  n_entries chk S B L buf p e = GOk (starts_from (p + h_size L) es) /\
+  n_end_idx chk S B L buf p e = GOk (Z.of_nat (length es)).
 Proof. exact nested_forward_chain. Qed.
 Print Assumptions C12_nested_forward_chain.
 
-(* resize / clear change only the numInGroup bytes *)
-Theorem C12_resize_frame : forall chk S B buf p e count,
-  is_uns S = true -> is_uns B = true ->
-  0 <= p -> p + hdr_size S B <= blen buf -> blen buf < 2 ^ 63 ->
-  (chk = true -> 0 <= e - p < 2 ^ 64 /\ hdr_size S B <= e - p) ->
+(* resize / clear change only the numInGroup bytes, wherever they lie in the
+   dimension composite; blockLength (before or after them) reads back unchanged *)
+Theorem C12_resize_frame : forall chk S B L buf p e count,
+  is_uns S = true -> is_uns B = true -> wf_hlay S B L ->
+  0 <= p -> p + h_size L <= blen buf -> blen buf < 2 ^ 63 ->
+  (chk = true -> 0 <= e - p < 2 ^ 64 /\ h_size L <= e - p) ->
   exists pre old post,
-    buf = pre ++ old ++ post /\ blen pre = p + wsize B /\ length old = wbytes S /\
+    buf = pre ++ old ++ post /\ blen pre = p + h_ng L /\ length old = wbytes S /\
     let buf' := pre ++ enc_le (wbytes S) (ccast S count) ++ post in
-    g_resize chk S B buf p e count = GOk buf' /\
-    g_clear chk S B buf p e = GOk (pre ++ enc_le (wbytes S) 0 ++ post) /\
-    (forall g, read_grp chk S B buf p e = GOk g ->
-       read_grp chk S B buf' p e = GOk (mkGrp p e (g_bl g) (ccast S count))).
+    g_resize chk S B L buf p e count = GOk buf' /\
+    g_clear chk S B L buf p e = GOk (pre ++ enc_le (wbytes S) 0 ++ post) /\
+    (forall g, read_grp chk S B L buf p e = GOk g ->
+       read_grp chk S B L buf' p e = GOk (mkGrp p e (h_size L) (g_bl g) (ccast S count))).
 Proof. exact resize_frame. Qed.
 Print Assumptions C12_resize_frame.
+
+(* a well-formed layout has room for both members *)
+Theorem C12_layout_size : forall S B L,
+  wf_hlay S B L -> wsize B + wsize S <= h_size L.
+Proof. exact wf_hlay_size. Qed.
+Print Assumptions C12_layout_size.
+
+(* the two-member composite (blockLength followed by numInGroup, size
+   [hdr_size S B]) is an instance of the layouts above *)
+Theorem C12_two_member_header_is_an_instance : forall S B bl ng,
+  is_uns S = true -> is_uns B = true -> in_range B bl = true -> in_range S ng = true ->
+  (wf_hlay S B (std_hlay S B) /\ h_size (std_hlay S B) = hdr_size S B) /\
+  blen (enc_dim S B bl ng) = h_size (std_hlay S B) /\
+  rd B (enc_dim S B bl ng) (h_bl (std_hlay S B)) = Some bl /\
+  rd S (enc_dim S B bl ng) (h_ng (std_hlay S B)) = Some ng.
+Proof. exact two_member_header_instance. Qed.
+Print Assumptions C12_two_member_header_is_an_instance.
